@@ -58,3 +58,27 @@ def t_capacity(world):
 _t17b = tasks
 def tasks(tier):
     return _t17b(tier) + [('capacity', t_capacity)]
+
+
+# ---------------------------------------------------------------- C17.d: Drift banks - the deposit limit (native decimals) is brought to the 9-decimal unit the deposits are booked in
+def t_drift_limit(world):
+    f = world.fn(r'(^|::)scale_drift_deposit_limit$', crate='drift')
+    ob = Ob('C17.d', 'scale_drift_deposit_limit(limit, decimals): Ok(l) => l == limit * 10^(9 - decimals) exactly for decimals <= 9, and trunc(limit / 10^(decimals - 9)) for decimals > 9 (never ABOVE the exact scaled limit, so the cap is never loosened); an overflow is an error',
+            [f.name], 'decimals enumerated 0..=19; every u64 limit')
+    for d in range(0, 20):
+        eng = world.engine(primary='drift', extra=('typecrate',))
+        lim = eng.ex.fresh('u64', 'lim')
+        res = eng.run_fn(f, [lim, IntV(z3.IntVal(d), 'u8')]); ob.paths += len(res)
+        for r, okc in ok_paths(res):
+            if ob.witness(eng, r, [okc]) is False: continue
+            y = r['ret'].payload[0][0].e
+            want = lim.e * W * (10 ** (9 - d)) if d <= 9 else (lim.e * W) / (10 ** (d - 9))
+            ob.prove(eng, r, [okc], y == want, f'decimals={d}: exact scaling to 9 decimals', role='drift-limit')
+            ob.prove(eng, r, [okc], y * (10 ** max(d - 9, 0)) <= lim.e * W * (10 ** max(9 - d, 0)), f'decimals={d}: never above the exact scaled limit', role='drift-limit-bound')
+    ob.need_witness()
+    return [ob]
+
+
+_t17d = tasks
+def tasks(tier):
+    return _t17d(tier) + [('drift_limit', t_drift_limit)]
